@@ -14,6 +14,8 @@
     new <bits> <n> (<d0> <d1> <class>)*n               -> new
     ins <i> <len> <w>*len | find <i> | clr | clrk <i>  -> ok | f <len> <w>*len | ok | ok
     reload                                             -> reload 1|0     (save, load into a fresh table)
+    dump                                               -> dump <tokens>   (what save writes: `s` seal, `n` count, `k` key, `f` fitness)
+    loadcut <p>                                        -> loadcut 1|0 <tokens>  (save, keep p % of the tokens, load into a fresh table)
     jump <seal>                                        -> ok             (load of a header-only stream)
     pnew <bits> <n> (<d0> <d1> <class>)*n <m> (<keyidx> <fitclass>)*m   -> pnew
     peval <id> | pdata <d> | pclr | preload            -> p <len> <w>*len calls=<k> | ok | ok | reload 1|0
@@ -62,7 +64,25 @@ def mkCache (ps : List (Key × Nat)) : Cache :=
   let idx : Key → Nat := fun k => match ps.find? (fun p => p.1 == k) with
     | some p => p.2
     | none => 1000000
-  Cache.init idx (ps.map (·.2)).eraseDups
+  -- the classes are numbered in the order in which save() walks their slots: `dom` ascending
+  Cache.init idx ((ps.map (·.2)).eraseDups.mergeSort (· ≤ ·))
+
+open Vita.C04.IO in
+def showToks (ts : List Tok) : String :=
+  ts.foldl (fun s t => s ++ " " ++ match t with
+    | .u32 x => "s " ++ toString x.toNat
+    | .size n => "n " ++ toString n.toNat
+    | .key k => "k " ++ toString k.d0.toNat ++ " " ++ toString k.d1.toNat
+    | .fit f => showFit "f" f) ""
+
+/-- save + load into a fresh table through the GENERATED bodies of cache::save / cache::load; `m`: keep
+    only the first p per cent of the tokens -/
+def greloadGen (g : CState) (p : Option Nat) : Option (Bool × CState × Nat) :=
+  (gsave g).bind fun s =>
+    let toks := match p with
+      | some p => s.2.2.take (if p ≥ 100 then s.2.2.length else s.2.2.length * p / 100)
+      | none => s.2.2
+    (gload ⟨g.mask, fun _ => Vita.C04.Slot.fresh, 1⟩ toks).map fun r => (r.1, r.2, s.2.2.length)
 
 /-- append the generated terms' answer when it differs from the model's -/
 def withGen (model : String) (gen : Option String) : String :=
@@ -105,7 +125,19 @@ def step (st : St) (line : String) : St × String :=
         | none => (st, "bad-op")
       | "reload", [] =>
         let r := (Cache.init st.c.idx st.c.dom).load st.c.save
-        ({ st with c := r.2, g := st.g.map greload }, if r.1 then "reload 1" else "reload 0")
+        let gr := st.g.bind fun g => greloadGen g none
+        ({ st with c := r.2, g := gr.map (·.2.1) },
+         withGen (if r.1 then "reload 1" else "reload 0") (gr.map fun x => if x.1 then "reload 1" else "reload 0"))
+      | "dump", [] =>
+        (st, withGen ("dump" ++ showToks (Vita.C04.IO.saveT st.c))
+          ((st.g.bind gsave).map fun s => (if s.1 then "dump" else "dump save-failed") ++ showToks s.2.2))
+      | "loadcut", [p] =>
+        let toks := Vita.C04.IO.saveT st.c
+        let m := if p ≥ 100 then toks.length else toks.length * p / 100      -- p = per cent of the tokens kept
+        let r := Vita.C04.IO.loadT (Cache.init st.c.idx st.c.dom) (toks.take m)
+        let gr := st.g.bind fun g => greloadGen g (some p)
+        let sh (b : Bool) (n : Nat) := "loadcut " ++ (if b then "1 " else "0 ") ++ toString n
+        ({ st with c := r.2, g := gr.map (·.2.1) }, withGen (sh r.1 toks.length) (gr.map fun x => sh x.1 x.2.2))
       | "jump", [x] =>
         if x < 4294967296 then
           let r := st.c.load ⟨UInt32.ofNat x, 0, []⟩
@@ -167,8 +199,9 @@ def step (st : St) (line : String) : St × String :=
         ({ st with ps := { st.ps with cache := st.ps.cache.clear }, gp := st.gp.bind gproxyClear }, "ok")
       | "preload", [] =>
         let r := (Cache.init st.ps.cache.idx st.ps.cache.dom).load st.ps.cache.save
-        ({ st with ps := { st.ps with cache := r.2 }, gp := st.gp.map fun p => { p with cache := greload p.cache } },
-         if r.1 then "reload 1" else "reload 0")
+        let gr := st.gp.bind fun p => (greloadGen p.cache none).map fun x => (x.1, { p with cache := x.2.1 })
+        ({ st with ps := { st.ps with cache := r.2 }, gp := gr.map (·.2) },
+         withGen (if r.1 then "reload 1" else "reload 0") (gr.map fun x => if x.1 then "reload 1" else "reload 0"))
       | _, _ => (st, "bad-op")
 
 partial def loop (h : IO.FS.Stream) (out : IO.FS.Stream) (st : St) : IO Unit := do
